@@ -386,20 +386,6 @@ example : setItem 40 (.dict .n0 [(['k'], .int 1)]) ['k', '[', 'n', 'e', 'w', '('
       = (.dict .n0 [(['k'], .list .n0 [.int 1, .dict .n0 [(['x'], .str ['V'])]])], .ok ()) := by
   decide
 
-/-- **finding C03-e (open)**: an index step on a single value.  `d['a[1]'] = 'V'` on `{a: 1}` is `name[len]` on the hidden
-one-element list lookup sees (`d['a[0]']` is `d['a']`): it must wrap the value and append, or raise.  `_find` reports the
-temporary list `[1]` as the parent, `_add` appends to it and the store goes there: nothing raises, the tree is unchanged and
-the value does not read back.  The same for a single value that is an element of a list (`a[0][1]` on `{a: [5]}`) and with
-steps that follow (`a[1]/y` on `{a: {x: 1}}`). -/
-theorem C03_index_on_single_value_cex :
-    setItem 40 (.dict .n0 [(['a'], .int 1)]) ['a', '[', '1', ']'] (.str ['V']) = (.dict .n0 [(['a'], .int 1)], .ok ()) ∧
-    (getItem 40 (.dict .n0 [(['a'], .int 1)]) ['a', '[', '1', ']']).2 = .error .IndexError ∧
-    setItem 40 (.dict .n0 [(['a'], .list .n0 [.int 5])]) ['a', '[', '0', ']', '[', '1', ']'] (.str ['V'])
-      = (.dict .n0 [(['a'], .list .n0 [.int 5])], .ok ()) ∧
-    setItem 40 (.dict .n0 [(['a'], .dict .n0 [(['x'], .int 1)])]) ['a', '[', '1', ']', '/', 'y'] (.str ['V'])
-      = (.dict .n0 [(['a'], .dict .n0 [(['x'], .int 1)])], .ok ()) := by
-  decide
-
 /-! ## Non-vacuity: the theorems instantiated on concrete trees (explicit char lists) -/
 
 theorem pk_a : PlainKey ['a'] := ⟨by simp, by decide, by simp⟩
